@@ -75,7 +75,12 @@ def observe(cfg, variant=0):
             f.set_params(selected_forecaster="m%d" % (cfg["resel"] - 1))
             f.fit(yser(0, n - 1), fh=fharg)
         for u in cfg["ups"]:
-            f.update(yser(u["lo"], u["hi"]), update_params=bool(u["upd"]))
+            if u["upd"] and variant % 2 and cfg["tree"]["kind"] != "online":
+                # parameter updating is the default, of composites and members alike (the online ensemble's own, documented
+                # default is False: it is always given the argument)
+                f.update(yser(u["lo"], u["hi"]))
+            else:
+                f.update(yser(u["lo"], u["hi"]), update_params=bool(u["upd"]))
         p = f.predict()
         events = norm_events(stubs.LOG[TAG])
         ret = [rational(float(v)) or [] for v in p.values]
